@@ -78,7 +78,12 @@ func newWorld() *world {
 		for m := 0; m < nEnv; m++ {
 			w.cachePr[k][m] = rt.NondetBool()
 		}
-		w.cachePs[k] = func(e *wire.Envelope) bool { return w.cachePr[k][envID(e)] }
+		w.cachePs[k] = func(e *wire.Envelope) bool {
+			// a schedule point inside the relay's critical section: whatever the
+			// relay's locking lets run here is explored
+			rt.SchedPoint("cache-predicate")
+			return w.cachePr[k][envID(e)]
+		}
 	}
 	for m := range w.envs {
 		w.envs[m] = &wire.Envelope{Msg: idMsg{m}}
@@ -146,6 +151,14 @@ func count(xs []int, v int) int {
 // check replays the recorded order on the reference model (Appendix A.6) and
 // compares the deliveries observed at quiescence.
 func (w *world) check() {
+	// Final drain: a fresh consumer that accepts everything must receive
+	// exactly what the reference still holds in the cache (nothing may have
+	// left the cache other than to a subscriber).
+	drain := &consumer{id: -1}
+	derr := w.relay.Subscribe(drain, func(*wire.Envelope) bool { return true })
+	rt.Quiesce()
+	drained := drain.received()
+	rt.Assert("c18.drain.subscribed", derr == nil)
 	var gotBy [nCons][]int
 	for i := range gotBy {
 		gotBy[i] = w.cons[i].received()
@@ -269,6 +282,17 @@ func (w *world) check() {
 			}
 		}
 		rt.Assert("c18.not-lost", w.putCount[m] == 0 || total+stillCached >= 1)
+		sure, maybe := 0, 0
+		for _, c := range cached {
+			if c == m {
+				sure++
+			}
+			if c == -m-1 {
+				maybe++
+			}
+		}
+		dn := count(drained, m)
+		rt.Assert("c18.drain.cache-content", dn >= sure && dn <= sure+maybe)
 	}
 }
 
@@ -354,4 +378,24 @@ func VerifC18Concurrent() {
 	rt.Quiesce()
 	w.check()
 	rt.Reach("c18.conc")
+}
+
+// VerifC18Directed: engine self-test (a fixed two-goroutine program).
+func VerifC18Directed() {
+	w := newWorld()
+	prog := [][]op{{{opCache, 0}, {opPut, 0}}, {{opSubscribe, 0}, {opCache, 1}}}
+	var wg sync.WaitGroup
+	for i := range prog {
+		wg.Add(1)
+		go func(ops []op) {
+			defer wg.Done()
+			for _, o := range ops {
+				w.do(o)
+			}
+		}(prog[i])
+	}
+	wg.Wait()
+	rt.Quiesce()
+	w.check()
+	rt.Reach("c18.directed")
 }
